@@ -11,6 +11,7 @@ import Teleport.Drv.C11
 import Teleport.Drv.C12
 import Teleport.Drv.C13
 import Teleport.Drv.C14
+import Teleport.Drv.C15
 import Teleport.Drv.C16
 import Teleport.Drv.C17
 import Teleport.Drv.C18
@@ -20,7 +21,7 @@ open Teleport.Drv
 
 /-- every case kind of the line protocol with its model handler (one list per property module). -/
 def allHandlers : List (String × (Fields → String)) :=
-  handlersC01 ++ handlersC02 ++ handlersC03 ++ handlersC05 ++ handlersC06 ++ handlersC07 ++ handlersC08 ++ handlersC09 ++ handlersC10 ++ handlersC11 ++ handlersC12 ++ handlersC13 ++ handlersC14 ++ handlersC16 ++ handlersC17 ++ handlersC18 ++ handlersC19 ++ handlersC20
+  handlersC01 ++ handlersC02 ++ handlersC03 ++ handlersC05 ++ handlersC06 ++ handlersC07 ++ handlersC08 ++ handlersC09 ++ handlersC10 ++ handlersC11 ++ handlersC12 ++ handlersC13 ++ handlersC14 ++ handlersC15 ++ handlersC16 ++ handlersC17 ++ handlersC18 ++ handlersC19 ++ handlersC20
 
 def handle (line : String) : String :=
   match (line.trimAscii.toString.splitOn " ").filter (· ≠ "") with
